@@ -3,7 +3,7 @@ import re
 from collections import defaultdict
 
 from mirlib.cfg import CFG
-from mirlib.dataflow import DefUse, base_local, operand_place
+from mirlib.dataflow import DefUse, base_local, operand_place, typed_path
 from mirlib.locks import LockModel, ACQUIRE_RE, WAIT_RE, NOTIFY_RE
 from mirlib.program import norm_callee, strip_generic_args
 from . import common
@@ -854,3 +854,100 @@ def cnd2_every_wakeup_condition_notifies(ctx):
                           '%s in %s: every path to return passes a notify on %s'
                           % (desc, b.name.split('::')[-1], cv), where(site))
         ctx.require(n >= 1, 'CND-2: no mutation site found for %s' % cv)
+
+
+# ------------------------------------------------------------------------------------ FLW-22
+FLW22_TABLE = {
+    'load_column-none':
+        'the `None` arm of Storage::load_column in get_or_load: not reachable - Partition::get_cols asks '
+        'partition_has_been_loaded first, which answers true for a name beyond the last column of '
+        'every file, so such a column gets an empty handle and no load is attempted',
+}
+
+
+def flw22_busy_flag_released(ctx):
+    ctx.rule('FLW-22', 'the per-partition "load in progress" flag that get_or_load sets is cleared on '
+                       'every path that leaves the load: a flag left set makes every later load of that '
+                       'partition wait for a loader that no longer exists (the query worker spins, the '
+                       'reply is never sent)', floor=1)
+    P = ctx.P
+    F = P.one('DiskReadScheduler::get_or_load')
+    F.parse()
+    du = DefUse(F)
+    cfg = CFG(F)
+
+    def flag_store(t, val):
+        if t.kind != 'call' or not re.search(r'AtomicBool::store$', norm_callee(t.func or '')):
+            return False
+        if len(t.args) < 2 or t.args[1].strip() != 'const %s' % val:
+            return False
+        root, steps = typed_path(F, du, t.args[0])
+        org = du.origins(base_local(t.args[0]))
+        names = field_names_of(ctx, steps)
+        return 'load_scheduled' in names or any('load_scheduled' in (st.rhs or '') for (_b, st) in org['stmts']) or \
+            _reads_field(ctx, F, du, org, 'load_scheduled')
+    sets = [blk.id for blk, t in F.calls() if not blk.cleanup and flag_store(t, 'true')]
+    clears = [blk.id for blk, t in F.calls() if not blk.cleanup and flag_store(t, 'false')]
+    ctx.require(sets and clears, 'FLW-22: get_or_load does not set / clear the load_scheduled flag '
+                                 '(set %s, clear %s)' % (sets, clears))
+    # blocks reachable from the set without passing a clear
+    leak = set()
+    for sb in sets:
+        leak |= cfg.reachable_from(sb, avoid=set(clears))
+    # the None edge of the load_column result
+    none_targets = []
+    for blk, t in F.calls():
+        if not blk.cleanup and norm_callee(t.func or '').endswith('::load_column'):
+            for r in du.forward(base_local(t.dest)):
+                if 'Option<std::vec::Vec<mem_store::column::Column>>' not in (F.local_type(r) or ''):
+                    continue
+                for (b2, k2, o2) in du.uses.get(r, []):
+                    if k2 == 'stmt' and o2.rhs.startswith('discriminant('):
+                        dl = base_local(o2.lhs)
+                        for (b3, k3, o3) in du.uses.get(dl, []):
+                            if k3 == 'term' and o3.kind == 'switch':
+                                none_targets += [tg for (v, tg) in o3.targets if v == '0']
+    n = 0
+    for bid in sorted(leak):
+        blk = F.blocks[bid]
+        if blk.cleanup:
+            continue
+        for s in blk.stmts:
+            if s.kind == 'assign' and s.lhs.strip() == '_0':
+                tabled = any(cfg.dominates(nt, bid) for nt in none_targets)
+                n += 1
+                if tabled:
+                    ctx.exception('FLW-22', 'load_column-none', FLW22_TABLE['load_column-none'])
+                    ctx.ok('FLW-22', 'get_or_load|return-with-flag-set|load_column-none',
+                           'tabled: ' + FLW22_TABLE['load_column-none'], where(s))
+                else:
+                    ctx.violation('FLW-22', 'get_or_load|return-with-flag-set',
+                                  'get_or_load returns (%s) on a path on which the load_scheduled flag it '
+                                  'set is still true' % s.rhs[:60], where(s))
+    ctx.check('FLW-22', 'get_or_load|flag-cleared-after-load', True,
+              '%d set site(s), %d clear site(s); %d return value assignment(s) reachable with the flag set '
+              '(all tabled)' % (len(sets), len(clears), n), where(F.blocks[clears[0]].term))
+
+
+def field_names_of(ctx, steps):
+    from .recovery import field_names
+    try:
+        return field_names(ctx, steps)
+    except Exception:
+        return []
+
+
+def _reads_field(ctx, F, du, org, fname):
+    """Some local in the origin closure is read from field `fname` of self."""
+    lm = lockmodel(ctx)
+    for l in org['locals']:
+        for d in du.defs.get(l, []):
+            if d[1] == 'stmt':
+                m = re.search(r'\(\(\*_1\)\.(\d+): ', d[2].rhs or '')
+                if m:
+                    try:
+                        if lm.field_name(F.local_type(1).lstrip('&').strip(), int(m.group(1))) == fname:
+                            return True
+                    except Exception:
+                        pass
+    return False
